@@ -22,10 +22,10 @@ def gen_ops(tier, rng):
 def oracle(tier, rng, seeds):
     drv = common.py_driver()
     fails, st, n = [], {}, 0
-    for c in geo_gens.cells(drv, tier, rng, 300 if tier == 'quick' else 20000):
+    for c in geo_gens.cells(drv, tier, rng, 300 if tier == 'quick' else 60000):
         if c:
             K.check_shape(drv.a5, c, fails, st); n += 1
-    for p in geo_gens.points(drv, tier, rng, 400 if tier == 'quick' else 20000):
+    for p in geo_gens.points(drv, tier, rng, 400 if tier == 'quick' else 50000):
         K.check_quantisation(drv.a5, p, rng.randint(0, 29), fails, st); n += 1
         if len(fails) > 20:
             break
